@@ -5,6 +5,7 @@ import (
 	"net/url"
 	"regexp"
 	"sort"
+	"strconv"
 	"strings"
 	"time"
 
@@ -410,6 +411,55 @@ func c16Matrix(c *engine.Ctx) {
 			}
 			hw.Close()
 			pw.Close()
+		}
+	}
+	// the Location of a completed upload is an address: it leads to the object also when
+	// the key holds characters that mean something in a URL
+	for _, lm := range []struct {
+		name string
+		cfg  drv.Config
+		host string
+		pfx  string
+	}{
+		{"path-style", drv.Config{Kind: drv.Mem}, drv.HostBase, "/aaa/"},
+		{"host-bucket", drv.Config{Kind: drv.Mem, HostBucket: true}, "aaa." + drv.HostBase, "/"},
+		{"bases", drv.Config{Kind: drv.Mem, HostBases: []string{drv.HostBase}}, "aaa." + drv.HostBase, "/"},
+	} {
+		for _, key := range []string{"q?x", "h#x", "100%", "25%25", "sp ace", "a/b c", "pl+us", "ü/日", "semi;colon", "a&b=c"} {
+			lw, err := drv.NewWorld(lm.cfg)
+			if err != nil {
+				engine.HarnessError("C16: %v", err)
+			}
+			lw.Do(drv.Req{Method: "PUT", Path: "/aaa", Host: drv.HostBase})
+			if lm.name != "path-style" {
+				lw.Do(drv.Req{Method: "PUT", Path: "/", Host: lm.host})
+			}
+			id, loc := "", ""
+			r := lw.Do(drv.Req{Method: "POST", Path: lm.pfx + key, Query: "uploads", Host: lm.host})
+			if n := r.XML(); n != nil {
+				id = n.T("UploadId")
+			}
+			lw.Do(drv.Req{Method: "PUT", Path: lm.pfx + key, Query: drv.Q("partNumber", "1", "uploadId", id), Body: []byte("pp"), Host: lm.host})
+			r = lw.Do(drv.Req{Method: "POST", Path: lm.pfx + key, Query: drv.Q("uploadId", id), Host: lm.host,
+				Body: []byte("<CompleteMultipartUpload><Part><PartNumber>1</PartNumber><ETag>" + drv.ETagOf([]byte("pp")) + "</ETag></Part></CompleteMultipartUpload>")})
+			if n := r.XML(); n != nil && r.Status == 200 {
+				loc = n.T("Location")
+			}
+			c.Add(0, 1, 1, 4)
+			rep := func(field, msg string) {
+				c.Report(&engine.Violation{Sig: sig("C16", "routing", lm.name, "complete", field), World: lm.name, History: []string{"multipart upload of key " + strconv.Quote(key)},
+					Msg: fmt.Sprintf("%s, key %q: %s", lm.name, key, msg)})
+			}
+			if loc == "" {
+				rep("setup", "complete answered "+r.Short())
+			} else if u, perr := url.Parse(loc); perr != nil {
+				rep("location-unparsable", fmt.Sprintf("Location %q: %v", loc, perr))
+			} else if g := lw.Do(drv.Req{Method: "GET", RawTarget: u.RequestURI(), Host: u.Host}); g.Status != 200 || string(g.Body) != "pp" {
+				rep("location-does-not-lead-to-the-object", fmt.Sprintf("a GET of the returned Location %q answers %s, want the completed object", loc, g.Short()))
+			} else {
+				c.Distinct("location " + lm.name + " " + key)
+			}
+			lw.Close()
 		}
 	}
 	// slash equivalence in path-style
